@@ -21,18 +21,33 @@ class C17(Check):
     comp = 'Sha'
     extracted = ['coq/Sha/model.mli', 'coq/Sha/model.ml', 'ocaml/zconv.ml', 'ocaml/sha_driver.ml']
     harness_sources = ['harness/sha.cpp']
-    level_text = ('Theorems in Coq: for every message and every chunking the model of Sha256 (streaming update, rolling-window '
-                  'Transform, finalize padding loop, hmac on a reused hasher) equals a direct transcription of FIPS 180-4 / RFC 2104; '
-                  'the K/H0/pad constants are regenerated from the source on every run and proved equal to the standard. The model is '
-                  'tied to the code by running the extracted model, the extracted spec and the ASan/UBSan build of the working tree on '
-                  'the same histories (results and internal state words compared).')
-    level_note = ('Trusted: Coq kernel, the FIPS/RFC transcription (ShaSpec.v), extraction + OCaml driver, harness, table translator. '
-                  'Message length < 2^61 bytes. The theorem is about the model; the tie to the code is differential.')
+    technique = ('machine-checked proof (Coq 8.16.1) about an executable Gallina model of Sha256.cpp/Sha256.hpp (refinement to a '
+                 'transcription of FIPS 180-4 / RFC 2104, by invariant + induction over histories) + differential correspondence of the '
+                 'extracted model and spec with the ASan/UBSan build of the code')
+    level_text = ('Theorems in Coq (13, all closed under the global context), about the model of Sha256 (streaming update with the '
+                  '64-byte buffer, Transform with the rolling 16-word window and the rotating register file, finalize with its padding '
+                  'loop, hmac on one reused hasher): Transform = the FIPS 180-4 compression function for every state and block; an '
+                  'invariant "hasher p has absorbed message m" holds initially and is preserved by update for every chunk, by '
+                  'finalize and by reset; for every message < 2^61 bytes and every list of chunks, finalize returns the FIPS 180-4 '
+                  'digest of the concatenation and leaves a fresh hasher; the padding loop never exhausts its fuel (no length bound); '
+                  'hmac = RFC 2104 for every key length and message; and for every history of update/finalize/reset/hash/hmac '
+                  'the observations of the model equal those of the spec (refinement by induction over the history). K/H0/ipad/opad '
+                  'are regenerated from the source on every run and proved equal to the standard. The model is tied to the code by '
+                  'running the extracted model, the extracted spec and the ASan/UBSan build of the working tree on the same '
+                  'histories (results, byte counter and the eight state words compared after every operation).')
+    level_note = ('Trusted: Coq kernel, the FIPS 180-4 / RFC 2104 transcription (ShaSpec.v; guarded by three known-answer Examples: '
+                  'FIPS "abc", RFC 4231 cases 2 and 6, and by python hashlib/hmac in extra_checks), extraction + OCaml driver, harness, '
+                  'table translator. Side conditions of the theorems: bytes are 0..255 and everything that is finalized is shorter '
+                  'than 2^61 bytes (beyond that the 64-bit bit counter of the code wraps; not reachable by a test). The theorems are '
+                  'about the model; that the C++ computes what the model computes is validated by correspondence only (no clause of '
+                  'the property is left unproved on the model side). RFC 4231 is a set of test vectors for RFC 2104: two of them are '
+                  'Examples, the property is the RFC 2104 definition.')
     rule = ('cases = histories of update/finalize/reset/hash/hmac on one hasher; message lengths sweep the padding '
             'boundaries (0..300), 2- and 3-way chunkings, key lengths 0..200 across the block size; a case is '
             'non-trivial when it absorbs at least 56 bytes (more than one padding layout) or uses hmac or reuses the '
             'hasher after finalize/reset; distinct = distinct op text')
     assumptions = ['message length < 2^61 bytes (bit counter of the code wraps beyond)',
+                   'input bytes are in 0..255 (wf_bytes)',
                    'FIPS 180-4 / RFC 2104 transcription in coq/Sha/ShaSpec.v (guarded by known-answer Examples)']
 
     def gen_tables(self):
